@@ -47,3 +47,161 @@ Lemma valid_encode_config_default :
                           ("columnNamingCase", JStr "snake")])
      = Some (mkConfig "m" "g" NCSnake NCSnake FFJson FFJson "%04v_%m" "src/models" default_seaorm "").
 Proof. split; vm_compute; reflexivity. Qed.
+
+(* ---------- the verdict of the fuelled validator does not depend on the fuel ---------- *)
+Definition le_o {A} (a a' : option A) : Prop := forall b, a = Some b -> a' = Some b.
+Lemma le_o_refl {A} (a : option A) : le_o a a.
+Proof. intros b H; exact H. Qed.
+
+Lemma and_o_mono (a a' b b' : option bool) : le_o a a' -> le_o b b' -> le_o (and_o a b) (and_o a' b').
+Proof.
+  intros Ha Hb r. destruct a as [[|]|]; cbn [and_o].
+  - rewrite (Ha true eq_refl). cbn [and_o]. apply Hb.
+  - destruct b as [x|]; [|discriminate]. rewrite (Ha false eq_refl), (Hb x eq_refl). cbn [and_o]. trivial.
+  - discriminate.
+Qed.
+
+Lemma all_o_mono {A} (F G : A -> option bool) (l : list A) :
+  (forall x, le_o (F x) (G x)) -> le_o (all_o F l) (all_o G l).
+Proof.
+  intros H. induction l as [|x r IH]; cbn [all_o]; [apply le_o_refl|].
+  apply and_o_mono; [apply H|exact IH].
+Qed.
+
+Lemma count_o_mono {A} (F G : A -> option bool) (l : list A) :
+  (forall x, le_o (F x) (G x)) -> le_o (count_o F l) (count_o G l).
+Proof.
+  intros H. induction l as [|x r IH]; cbn [count_o]; [apply le_o_refl|].
+  intros n. destruct (F x) as [[|]|] eqn:E; try discriminate;
+    destruct (count_o F r) as [m|] eqn:C; try discriminate;
+    rewrite (H x _ E), (IH m eq_refl); trivial.
+Qed.
+
+Lemma valid_f_mono (n : nat) : forall ds s j, le_o (valid_f n ds s j) (valid_f (S n) ds s j).
+Proof.
+  induction n as [|n IH]; intros ds s j; [intros b H; discriminate H|].
+  change (valid_f (S n) ds s j) with
+    (match s with
+     | STrue => Some true
+     | SFalse => Some false
+     | Sch ty props required items addl anyof oneof enum const ref minimum _ _ =>
+         and_o (Some (match ty with None => true | Some ts => existsb (fun t => has_type t j) ts end))
+        (and_o (match j with
+                | JObj o =>
+                    and_o (Some (forallb (fun r => match last_j r o with Some _ => true | None => false end) required))
+                   (and_o (all_o (fun ps => match last_j (fst ps) o with
+                                            | Some v => valid_f n ds (snd ps) v
+                                            | None => Some true
+                                            end) props)
+                          (match addl with
+                           | None => Some true
+                           | Some a => all_o (fun kv => if existsb (fun ps => String.eqb (fst ps) (fst kv)) props
+                                                        then Some true
+                                                        else match last_j (fst kv) o with
+                                                             | Some v => valid_f n ds a v
+                                                             | None => Some true
+                                                             end) o
+                           end))
+                | JArr l => match items with None => Some true | Some it => all_o (valid_f n ds it) l end
+                | _ => Some true
+                end)
+        (and_o (match anyof with
+                | None => Some true
+                | Some l => match count_o (fun a => valid_f n ds a j) l with
+                            | Some k => Some (Nat.ltb 0 k) | None => None end
+                end)
+        (and_o (match oneof with
+                | None => Some true
+                | Some l => match count_o (fun a => valid_f n ds a j) l with
+                            | Some k => Some (Nat.eqb k 1) | None => None end
+                end)
+        (and_o (Some (match enum with None => true | Some vs => existsb (json_eqb j) vs end))
+        (and_o (Some (match const with None => true | Some v => json_eqb j v end))
+        (and_o (match ref with
+                | None => Some true
+                | Some name => match find (fun kv => String.eqb (fst kv) name) ds with
+                               | Some (_, t) => valid_f n ds t j
+                               | None => Some false
+                               end
+                end)
+               (Some (match minimum with None => true | Some m => ge_min m j end))))))))
+     end).
+  change (valid_f (S (S n)) ds s j) with
+    (match s with
+     | STrue => Some true
+     | SFalse => Some false
+     | Sch ty props required items addl anyof oneof enum const ref minimum _ _ =>
+         and_o (Some (match ty with None => true | Some ts => existsb (fun t => has_type t j) ts end))
+        (and_o (match j with
+                | JObj o =>
+                    and_o (Some (forallb (fun r => match last_j r o with Some _ => true | None => false end) required))
+                   (and_o (all_o (fun ps => match last_j (fst ps) o with
+                                            | Some v => valid_f (S n) ds (snd ps) v
+                                            | None => Some true
+                                            end) props)
+                          (match addl with
+                           | None => Some true
+                           | Some a => all_o (fun kv => if existsb (fun ps => String.eqb (fst ps) (fst kv)) props
+                                                        then Some true
+                                                        else match last_j (fst kv) o with
+                                                             | Some v => valid_f (S n) ds a v
+                                                             | None => Some true
+                                                             end) o
+                           end))
+                | JArr l => match items with None => Some true | Some it => all_o (valid_f (S n) ds it) l end
+                | _ => Some true
+                end)
+        (and_o (match anyof with
+                | None => Some true
+                | Some l => match count_o (fun a => valid_f (S n) ds a j) l with
+                            | Some k => Some (Nat.ltb 0 k) | None => None end
+                end)
+        (and_o (match oneof with
+                | None => Some true
+                | Some l => match count_o (fun a => valid_f (S n) ds a j) l with
+                            | Some k => Some (Nat.eqb k 1) | None => None end
+                end)
+        (and_o (Some (match enum with None => true | Some vs => existsb (json_eqb j) vs end))
+        (and_o (Some (match const with None => true | Some v => json_eqb j v end))
+        (and_o (match ref with
+                | None => Some true
+                | Some name => match find (fun kv => String.eqb (fst kv) name) ds with
+                               | Some (_, t) => valid_f (S n) ds t j
+                               | None => Some false
+                               end
+                end)
+               (Some (match minimum with None => true | Some m => ge_min m j end))))))))
+     end).
+  destruct s as [| |ty props required items addl anyof oneof enum const ref minimum fm df]; try apply le_o_refl.
+  apply and_o_mono; [apply le_o_refl|].
+  apply and_o_mono.
+  { destruct j as [| | | | |l|o]; try apply le_o_refl.
+    - destruct items as [it|]; [|apply le_o_refl]. apply all_o_mono. intros x. apply IH.
+    - apply and_o_mono; [apply le_o_refl|]. apply and_o_mono.
+      + apply all_o_mono. intros ps. destruct (last_j (fst ps) o); [apply IH|apply le_o_refl].
+      + destruct addl as [a|]; [|apply le_o_refl]. apply all_o_mono. intros kv.
+        destruct (existsb _ props); [apply le_o_refl|].
+        destruct (last_j (fst kv) o); [apply IH|apply le_o_refl]. }
+  apply and_o_mono.
+  { destruct anyof as [l|]; [|apply le_o_refl]. intros b.
+    destruct (count_o (fun a => valid_f n ds a j) l) as [k|] eqn:C; [|discriminate].
+    rewrite (count_o_mono _ (fun a => valid_f (S n) ds a j) l (fun x => IH ds x j) k C). trivial. }
+  apply and_o_mono.
+  { destruct oneof as [l|]; [|apply le_o_refl]. intros b.
+    destruct (count_o (fun a => valid_f n ds a j) l) as [k|] eqn:C; [|discriminate].
+    rewrite (count_o_mono _ (fun a => valid_f (S n) ds a j) l (fun x => IH ds x j) k C). trivial. }
+  apply and_o_mono; [apply le_o_refl|].
+  apply and_o_mono; [apply le_o_refl|].
+  apply and_o_mono; [|apply le_o_refl].
+  destruct ref as [name|]; [|apply le_o_refl].
+  destruct (find _ ds) as [[k t]|]; [apply IH|apply le_o_refl].
+Qed.
+
+(* once the validator answers, more fuel never changes the answer *)
+Theorem valid_fuel_irrelevant (n m : nat) (ds : defs) (s : jschema) (j : json) (b : bool) :
+  valid_f n ds s j = Some b -> valid_f (n + m) ds s j = Some b.
+Proof.
+  intros H. induction m as [|m IH].
+  - rewrite Nat.add_0_r. exact H.
+  - rewrite Nat.add_succ_r. apply valid_f_mono. exact IH.
+Qed.
